@@ -8,6 +8,7 @@ for d in ${@:-$(ls -d seeded/*/)}; do
   git -C /repo apply $PWD/$d/patch.diff
   timeout 3000 ./bin/symgo check -p $P -tier quick > /tmp/rerun_$n.txt 2>&1; rc=$?
   git -C /repo checkout -- .
+  git -C /verif checkout -- evidence/$P.json 2>/dev/null  # the evidence of a run against a seeded change is not evidence about /repo
   python3 - "$d" "$rc" <<'PY'
 import json,sys
 d,rc=sys.argv[1],int(sys.argv[2])
